@@ -55,6 +55,20 @@ const (
 // "stale cached log" is listed once per property whose oracle it breaks.
 func c05tD1ID(focus string) string { return focus + "-" + c05tD1Slug }
 
+// second review pass (all need a stalled segment upload or a reader with an old log):
+//
+//	r1 <focus>-reopen-discards-inflight-flush: a broker whose produce is still uploading loses the
+//	   lease, re-acquires it under a new revision and opens a NEW log at the published end
+//	   offset: the next produce and the stalled one are acknowledged at the same offset
+//	r2 <focus>-ack-after-lease-release-during-upload: the stalled upload lands (and is answered
+//	   with success) after the broker gave the lease away; the new owner used the same offset
+//	r3 C04-non-owner-stale-log-out-of-range: a broker whose cached log ends below the published
+//	   end offset answers a fetch below the high watermark with OFFSET_OUT_OF_RANGE
+func c05tR1ID(focus string) string { return focus + "-reopen-discards-inflight-flush" }
+func c05tR2ID(focus string) string { return focus + "-ack-after-lease-release-during-upload" }
+
+const c05tR3 = "C04-non-owner-stale-log-out-of-range"
+
 type c05tStep struct {
 	Op   string `json:"op"`            // produce fetch list-earliest list-latest release shutdown expire
 	B    int    `json:"b"`             // broker index 0/1 (release: the current owner of P, whoever it is)
@@ -63,6 +77,7 @@ type c05tStep struct {
 	N    int    `json:"n,omitempty"`    // records of the produced batch
 	Off  int64  `json:"off,omitempty"`  // fetch offset
 	Hold int    `json:"hold,omitempty"` // >0: the request's first UpdateOffsets is held for this many further steps
+	Up   int    `json:"up,omitempty"`   // >0: the request's first segment upload is stalled (lands late) for this many further steps
 }
 
 func (s c05tStep) String() string {
@@ -70,6 +85,9 @@ func (s c05tStep) String() string {
 	h := ""
 	if s.Hold > 0 {
 		h = fmt.Sprintf(" hold-UpdateOffsets=%d", s.Hold)
+	}
+	if s.Up > 0 {
+		h = fmt.Sprintf(" stall-segment-upload=%d", s.Up)
 	}
 	switch s.Op {
 	case "produce":
@@ -130,14 +148,59 @@ func (g *c05tGate) Available() bool {
 	return true
 }
 
+// c05tS3 is one broker's S3 client: it can stall (never alter) the next segment upload and notes
+// whether the broker held the partition lease when an upload went out.
+type c05tS3 struct {
+	*vfS3
+	w       *c05tWorld
+	h       *handler
+	id      int32
+	mu      sync.Mutex
+	armed   bool
+	parked  chan c05tHeld
+	release chan struct{}
+}
+
+func (g *c05tS3) arm() (chan c05tHeld, chan struct{}) {
+	g.mu.Lock()
+	defer g.mu.Unlock()
+	g.armed = true
+	g.parked = make(chan c05tHeld, 1)
+	g.release = make(chan struct{})
+	return g.parked, g.release
+}
+
+func (g *c05tS3) disarm() { g.mu.Lock(); g.armed = false; g.mu.Unlock() }
+
+func (g *c05tS3) UploadSegment(ctx context.Context, key string, body []byte) error {
+	part, ok := c19PartOfKey(key)
+	g.mu.Lock()
+	if g.armed && ok {
+		g.armed = false
+		pc, rc := g.parked, g.release
+		g.mu.Unlock()
+		pc <- c05tHeld{P: part.P, Last: -1}
+		<-rc
+	} else {
+		g.mu.Unlock()
+	}
+	if ok && g.h != nil && !g.h.leaseManager.Owns(part.Topic, part.P) {
+		g.w.vmu.Lock()
+		g.w.V19 = append(g.w.V19, fmt.Sprintf("broker %d uploads %s while it does not hold the lease of %s", g.id, key, part))
+		g.w.vmu.Unlock()
+	}
+	return g.vfS3.UploadSegment(ctx, key, body)
+}
+
 type c05tResult struct {
-	Step c05tStep
-	Err  error
-	Code int16
-	Base int64
-	HW   int64
-	Raw  []byte // produced batch as sent
-	Recs []byte // fetched record set
+	Step      c05tStep
+	Err       error
+	Code      int16
+	Base      int64
+	HW        int64
+	Raw       []byte // produced batch as sent
+	Recs      []byte // fetched record set
+	EndBefore int64  // published end offset of the partition when the request was sent
 }
 
 type c05tParked struct {
@@ -146,6 +209,7 @@ type c05tParked struct {
 	Cached    bool // the broker had a log for the partition before the request
 	Until     int  // released before the step with this index
 	Held      c05tHeld
+	Upload    bool // the stalled call is the segment upload
 	OpenSync  bool // the held write is the "sync from S3" of getPartitionLog (the broker had no log for the partition)
 	done      chan c05tResult
 	release   chan struct{}
@@ -157,6 +221,7 @@ type c05tBroker struct {
 	id     int32
 	store  *metadata.EtcdStore
 	gate   *c05tGate
+	s3     *c05tS3
 	h      *handler
 	down   bool // ReleaseAll was called (graceful shutdown); a new process is started on next use
 	parked *c05tParked
@@ -175,6 +240,7 @@ type c05tAck struct {
 type c05tCfg struct {
 	Focus            string
 	ExD1, ExD2, ExD3 bool
+	ExR1, ExR2, ExR3 bool // r2 in focus C19: the stalled upload is released before the broker's lease moves
 	Excluded         func(id string)
 	Class            func(name string)
 }
@@ -194,6 +260,8 @@ type c05tWorld struct {
 	fp        []string
 
 	V05, VOverlap, VRead, VGap []string
+	V04, V19                   []string
+	vmu                        sync.Mutex
 	harnessErr                 error
 	nontrivial                 bool
 }
@@ -254,6 +322,7 @@ func (w *c05tWorld) newProcess(id int32) (*metadata.EtcdStore, *c05tGate, *handl
 	}
 	gate := &c05tGate{Store: store}
 	h.store = gate
+	h.s3 = &c05tS3{vfS3: &vfS3{o: w.obj}, w: w, h: h, id: id}
 	return store, gate, h, nil
 }
 
@@ -262,7 +331,7 @@ func (w *c05tWorld) start(i int) error {
 	if err != nil {
 		return err
 	}
-	w.b[i] = &c05tBroker{idx: i, id: int32(i + 1), store: store, gate: gate, h: h, stale: map[int32]bool{}}
+	w.b[i] = &c05tBroker{idx: i, id: int32(i + 1), store: store, gate: gate, s3: h.s3.(*c05tS3), h: h, stale: map[int32]bool{}}
 	return nil
 }
 
@@ -297,6 +366,17 @@ func (b *c05tBroker) cached(p int32) bool {
 	defer b.h.logMu.RUnlock()
 	_, ok := b.h.logs[c05tTopic][p]
 	return ok
+}
+
+// logNext: next offset of the log the broker holds for p (-1 = no log)
+func (b *c05tBroker) logNext(p int32) int64 {
+	b.h.logMu.RLock()
+	plog, ok := b.h.logs[c05tTopic][p]
+	b.h.logMu.RUnlock()
+	if !ok {
+		return -1
+	}
+	return plog.BufferedHighWatermark()
 }
 
 func (b *c05tBroker) owns(p int32) bool { return b.h.leaseManager.Owns(c05tTopic, p) }
@@ -369,7 +449,7 @@ func c05tListOffsets(h *handler, p int32, ts int64) (int16, int64, error) {
 }
 
 func (w *c05tWorld) request(b *c05tBroker, s c05tStep, stepNo int) c05tResult {
-	r := c05tResult{Step: s}
+	r := c05tResult{Step: s, EndBefore: w.lastEnd[s.P]}
 	switch s.Op {
 	case "produce":
 		r.Raw = c06Batch(fmt.Sprintf("s%d-b%d-p%d", stepNo, b.id, s.P), s.N, 24)
@@ -450,6 +530,7 @@ func (w *c05tWorld) finish(b *c05tBroker, r c05tResult, stepNo int, cachedBefore
 			}
 		}
 		w.lastOwner[s.P] = b.idx
+		b.stale[s.P] = false
 	case "fetch":
 		w.trace = append(w.trace, fmt.Sprintf("%s%s -> code %d hw %d %d bytes", tag, s, r.Code, r.HW, len(r.Recs)))
 		w.fp = append(w.fp, fmt.Sprintf("%s%d:p%d:%d", s.Op, b.idx, s.P, r.Code))
@@ -463,6 +544,10 @@ func (w *c05tWorld) finish(b *c05tBroker, r c05tResult, stepNo int, cachedBefore
 		}
 		if !b.owns(s.P) {
 			w.cfg.Class("fetch-via-non-owner")
+		}
+		if s.Off < r.EndBefore && (r.Code == protocol.OFFSET_OUT_OF_RANGE || (r.Code == 0 && len(r.Recs) == 0)) {
+			w.V04 = append(w.V04, fmt.Sprintf("step %d: broker %d answered fetch(%s/%d, offset %d) with code %d and %d bytes although the published end offset was already %d (owner of the partition: %v)",
+				stepNo, b.id, c05tTopic, s.P, s.Off, r.Code, len(r.Recs), r.EndBefore, b.owns(s.P)))
 		}
 	default:
 		w.trace = append(w.trace, fmt.Sprintf("%s%s -> code %d offset %d", tag, s, r.Code, r.Base))
@@ -486,13 +571,21 @@ func (w *c05tWorld) releaseHold(b *c05tBroker, why string) {
 		w.harnessErr = fmt.Errorf("%w: request %s did not finish after its held write was released", errC19Inconclusive, pk.Step)
 		return
 	}
-	w.trace = append(w.trace, fmt.Sprintf("[b%d's held UpdateOffsets(p%d,last=%d) lands: %s]", b.id, pk.Held.P, pk.Held.Last, why))
+	if pk.Upload {
+		w.trace = append(w.trace, fmt.Sprintf("[b%d's stalled segment upload (p%d) lands: %s]", b.id, pk.Held.P, why))
+	} else {
+		w.trace = append(w.trace, fmt.Sprintf("[b%d's held UpdateOffsets(p%d,last=%d) lands: %s]", b.id, pk.Held.P, pk.Held.Last, why))
+	}
 	if pk.peerWrote {
 		w.cfg.Class("held-write-lands-after-the-other-broker-wrote")
 		w.nontrivial = true
 	}
 	w.finish(b, r, pk.StepNo, pk.Cached, true)
-	w.check05(fmt.Sprintf("the held UpdateOffsets(p%d,last=%d) of broker %d landed", pk.Held.P, pk.Held.Last, b.id))
+	if pk.Upload {
+		w.check05(fmt.Sprintf("the stalled segment upload (p%d) of broker %d landed", pk.Held.P, b.id))
+	} else {
+		w.check05(fmt.Sprintf("the held UpdateOffsets(p%d,last=%d) of broker %d landed", pk.Held.P, pk.Held.Last, b.id))
+	}
 }
 
 func (w *c05tWorld) restart(b *c05tBroker) error {
@@ -542,6 +635,12 @@ func (w *c05tWorld) violated() bool {
 		return len(w.VOverlap)+len(w.VRead) > 0
 	case "C02":
 		return len(w.VOverlap)+len(w.VRead)+len(w.VGap) > 0
+	case "C04":
+		return len(w.V04) > 0
+	case "C19":
+		w.vmu.Lock()
+		defer w.vmu.Unlock()
+		return len(w.V19) > 0
 	}
 	return len(w.V05)+len(w.VOverlap)+len(w.VRead)+len(w.VGap) > 0
 }
@@ -595,7 +694,18 @@ func (w *c05tWorld) run(steps []c05tStep) {
 					continue
 				}
 			}
-			if b.parked != nil && (s.Op != "release" || b.parked.Held.P == s.P) {
+			if b.parked != nil && b.parked.Upload && (s.Op != "release" || b.parked.Held.P == s.P) {
+				// the broker gives the lease away while one of its produce requests is uploading
+				if w.cfg.Focus == "C19" && w.cfg.ExR2 {
+					w.cfg.Excluded(c05tR2ID("C19"))
+					w.releaseHold(b, "before the broker's lease moves")
+					if w.harnessErr != nil || w.violated() {
+						continue
+					}
+				} else {
+					w.cfg.Class("lease-moves-while-segment-upload-is-stalled")
+				}
+			} else if b.parked != nil && (s.Op != "release" || b.parked.Held.P == s.P) {
 				// the broker loses the lease while one of its requests waits for its end-offset write
 				if w.cfg.ExD3 {
 					w.cfg.Excluded(c05tD3)
@@ -648,16 +758,55 @@ func (w *c05tWorld) run(steps []c05tStep) {
 			}
 			b = w.b[s.B]
 		}
-		if b.parked != nil && (b.parked.Held.P == s.P || b.parked.Step.P == s.P) {
+		reopenRace := false
+		if b.parked != nil && b.parked.Step.P == s.P && b.parked.Upload && s.Op == "produce" && !b.owns(s.P) && !peer.owns(s.P) {
+			// finding r1: the broker lost the lease while its upload is stalled; this produce
+			// re-acquires it and (on a tree that reopens the log per ownership period) does not wait
+			if w.cfg.ExR1 {
+				w.cfg.Excluded(c05tR1ID(w.cfg.Focus))
+			} else {
+				reopenRace = true
+				w.cfg.Class("produce-reacquires-while-own-upload-is-stalled")
+			}
+		}
+		if b.parked != nil && (b.parked.Held.P == s.P || b.parked.Step.P == s.P) && !reopenRace {
 			w.releaseHold(b, "the broker's next request on the partition would wait for it")
 			if w.harnessErr != nil || w.violated() {
 				break
 			}
 		}
+		if s.Op == "produce" && peer.parked != nil && peer.parked.Upload && peer.parked.Step.P == s.P && !peer.owns(s.P) {
+			// finding r2: the other broker's upload is stalled and it no longer holds the lease
+			if w.cfg.ExR2 && w.cfg.Focus != "C19" {
+				w.cfg.Excluded(c05tR2ID(w.cfg.Focus))
+				w.releaseHold(peer, "before the new owner's produce")
+				if w.harnessErr != nil || w.violated() {
+					break
+				}
+			} else {
+				w.cfg.Class("produce-by-new-owner-while-old-owners-upload-is-stalled")
+				w.nontrivial = true
+			}
+		}
 		if b.parked != nil {
-			s.Hold = 0 // one held write per broker
+			s.Hold, s.Up = 0, 0 // one held call per broker
+		}
+		if s.Op != "produce" {
+			s.Up = 0
+		}
+		if s.Up > 0 {
+			s.Hold = 0
 		}
 		cachedBefore := b.cached(s.P)
+		if s.Op == "fetch" && cachedBefore && s.Off < w.lastEnd[s.P] && s.Off >= b.logNext(s.P) {
+			// finding r3: the broker's log ends below the published end offset
+			if w.cfg.ExR3 {
+				w.cfg.Excluded(c05tR3)
+				w.fp = append(w.fp, "x3")
+				continue
+			}
+			w.cfg.Class("fetch-below-high-watermark-via-broker-with-old-log")
+		}
 		if s.Op == "produce" && cachedBefore && b.stale[s.P] && !peer.owns(s.P) {
 			// finding d1: the broker would append through a log that predates the other broker's segments
 			if w.cfg.ExD1 {
@@ -679,7 +828,47 @@ func (w *c05tWorld) run(steps []c05tStep) {
 		opsBefore := w.obj.OpCount()
 		var r c05tResult
 		parkedNow := false
-		if s.Hold > 0 {
+		if reopenRace {
+			// runs next to the stalled request; if it waits for it (a tree that fences the old log),
+			// the stalled upload is let go after a grace period - any order is a legal schedule
+			done := make(chan c05tResult, 1)
+			go func(b *c05tBroker, s c05tStep, k int) { done <- w.request(b, s, k) }(b, s, k)
+			select {
+			case r = <-done:
+				w.nontrivial = true
+			case <-time.After(500 * time.Millisecond):
+				w.cfg.Class("produce-waited-for-the-stalled-upload")
+				w.releaseHold(b, "the broker's next produce waits for it")
+				select {
+				case r = <-done:
+				case <-time.After(120 * time.Second):
+					w.harnessErr = fmt.Errorf("%w: request %s did not finish", errC19Inconclusive, s)
+				}
+			}
+			if w.harnessErr != nil {
+				break
+			}
+		} else if s.Up > 0 {
+			pc, rc := b.s3.arm()
+			done := make(chan c05tResult, 1)
+			go func(b *c05tBroker, s c05tStep, k int) { done <- w.request(b, s, k) }(b, s, k)
+			select {
+			case r = <-done:
+				b.s3.disarm()
+				w.cfg.Class("stall-armed-but-no-upload-in-request")
+			case held := <-pc:
+				parkedNow = true
+				b.parked = &c05tParked{Step: s, StepNo: k, Cached: cachedBefore, Until: k + 1 + s.Up, Held: held, Upload: true, done: done, release: rc}
+				w.cfg.Class("segment-upload-stalled")
+				w.trace = append(w.trace, fmt.Sprintf("%s -> segment upload stalled", s))
+				w.fp = append(w.fp, fmt.Sprintf("%s%d:p%d:stalled", s.Op, b.idx, s.P))
+			case <-time.After(120 * time.Second):
+				w.harnessErr = fmt.Errorf("%w: request %s neither finished nor reached the upload", errC19Inconclusive, s)
+			}
+			if w.harnessErr != nil {
+				break
+			}
+		} else if s.Hold > 0 {
 			pc, rc := b.gate.arm()
 			done := make(chan c05tResult, 1)
 			go func(b *c05tBroker, s c05tStep, k int) { done <- w.request(b, s, k) }(b, s, k)
@@ -816,12 +1005,26 @@ func c05tDrawSteps(rt *rapid.T) (int, []c05tStep) {
 	}
 	for len(steps) < n {
 		op := rapid.SampledFrom([]string{"produce", "produce", "produce", "produce", "produce", "produce", "fetch", "fetch", "list-earliest", "list-latest",
-			"release", "shutdown", "expire", "handover", "handover", "overtake"}).Draw(rt, "op")
+			"release", "shutdown", "expire", "handover", "handover", "overtake", "stall", "reader"}).Draw(rt, "op")
 		p := int32(rapid.IntRange(0, nparts-1).Draw(rt, "partition"))
-		if (op == "handover" || op == "overtake") && len(steps)+3 > n {
+		if (op == "handover" || op == "overtake" || op == "stall" || op == "reader") && len(steps)+3 > n {
 			op = "produce"
 		}
 		switch op {
+		case "reader":
+			// a consumer stays connected to the broker that does not own the partition
+			f1 := c05tStep{Op: "fetch", P: p, Who: "other", Off: int64(rapid.IntRange(0, 3).Draw(rt, "offset"))}
+			pr := c05tStep{Op: "produce", P: p, Who: "owner", N: rapid.IntRange(1, 3).Draw(rt, "records")}
+			f2 := c05tStep{Op: "fetch", P: p, Who: "other", Off: int64(rapid.IntRange(0, 3).Draw(rt, "offset"))}
+			steps = append(steps, f1, pr, f2)
+		case "stall":
+			// the owner's segment upload is slow, it loses or gives up the lease meanwhile, the next
+			// produce reaches the same broker or the other one
+			a := c05tStep{Op: "produce", P: p, Who: "owner", N: rapid.IntRange(1, 3).Draw(rt, "records"), Up: rapid.IntRange(2, 4).Draw(rt, "stallSteps")}
+			mv := c05tStep{Op: rapid.SampledFrom([]string{"expire", "expire", "release", "shutdown"}).Draw(rt, "move"), P: p, Who: "owner"}
+			pr := c05tStep{Op: "produce", P: p, N: rapid.IntRange(1, 3).Draw(rt, "records")}
+			who(&pr, []string{"b1", "b2"})
+			steps = append(steps, a, mv, pr)
 		case "overtake":
 			// the owner's end-offset write is slow, the other broker looks at the partition (its
 			// own write may be slow too), the owner goes on producing
@@ -847,6 +1050,9 @@ func c05tDrawSteps(rt *rapid.T) (int, []c05tStep) {
 			s := c05tStep{Op: op, P: p, N: rapid.IntRange(1, 3).Draw(rt, "records")}
 			who(&s, []string{"b1", "b2", "owner", "owner", "other"})
 			hold(&s)
+			if s.Hold == 0 && rapid.IntRange(0, 5).Draw(rt, "stallThis") == 0 {
+				s.Up = rapid.IntRange(1, 4).Draw(rt, "stallSteps")
+			}
 			steps = append(steps, s)
 		case "fetch", "list-earliest", "list-latest":
 			s := c05tStep{Op: op, P: p}
@@ -886,6 +1092,14 @@ func c05tFail(rt interface{ Fatalf(string, ...any) }, w *c05tWorld, focus string
 		if v := append(append(append([]string{}, w.VOverlap...), w.VGap...), w.VRead...); len(v) > 0 {
 			rt.Fatalf("C02 violated (two brokers, ownership move): %s\nhistory:\n  %s", strings.Join(v, "\n"), tr)
 		}
+	case "C04":
+		if len(w.V04) > 0 {
+			rt.Fatalf("C04 violated (two brokers): %s\nhistory:\n  %s", strings.Join(w.V04, "\n"), tr)
+		}
+	case "C19":
+		if len(w.V19) > 0 {
+			rt.Fatalf("C19 violated (two brokers): %s\nhistory:\n  %s", strings.Join(w.V19, "\n"), tr)
+		}
 	}
 }
 
@@ -894,9 +1108,18 @@ func c05tCheck(t *testing.T, focus string) {
 	defer st.Flush()
 	env := c19NewEnv(t)
 	cfg := c05tCfg{Focus: focus, ExD1: vfkit.Known(c05tD1ID(focus)), Excluded: st.ExcludedCase, Class: st.Class}
-	if focus == "C05" {
+	switch focus {
+	case "C05":
 		// the end-offset findings break the C05 oracle only
 		cfg.ExD2, cfg.ExD3 = vfkit.Known(c05tD2), vfkit.Known(c05tD3)
+		// an overwritten segment can be shorter than the one the end offset was published for
+		cfg.ExR1, cfg.ExR2 = vfkit.Known(c05tR1ID(focus)), vfkit.Known(c05tR2ID(focus))
+	case "C02", "C06":
+		cfg.ExR1, cfg.ExR2 = vfkit.Known(c05tR1ID(focus)), vfkit.Known(c05tR2ID(focus))
+	case "C19":
+		cfg.ExR2 = vfkit.Known(c05tR2ID(focus))
+	case "C04":
+		cfg.ExR3 = vfkit.Known(c05tR3)
 	}
 	rapid.Check(t, func(rt *rapid.T) {
 		nparts, steps := c05tDrawSteps(rt)
@@ -921,6 +1144,8 @@ func c05tCheck(t *testing.T, focus string) {
 func TestVF_C05_TwoBrokers(t *testing.T) { c05tCheck(t, "C05") }
 func TestVF_C06_TwoBrokers(t *testing.T) { c05tCheck(t, "C06") }
 func TestVF_C02_TwoBrokers(t *testing.T) { c05tCheck(t, "C02") }
+func TestVF_C04_TwoBrokers(t *testing.T) { c05tCheck(t, "C04") }
+func TestVF_C19_TwoBrokers(t *testing.T) { c05tCheck(t, "C19") }
 
 // minimal histories of the listed findings, replayed through the same engine and oracles
 var (
@@ -936,6 +1161,16 @@ var (
 	// d3: broker 1's publish of offset 0 is slow; it shuts down (leases are released while
 	// in-flight requests drain); broker 2 takes over and acknowledges offset 1 (end 2); broker 1's
 	// publish lands: end 1
+	// r1: broker 1 acknowledges offset 0; its next produce (offset 1) is uploading slowly; its
+	// session expires; the next produce re-acquires the lease and opens a new log at end offset 1
+	c05tWitnessR1 = []c05tStep{{Op: "produce", B: 0, P: 0, N: 1}, {Op: "produce", B: 0, P: 0, N: 1, Up: 3}, {Op: "expire", B: 0}, {Op: "produce", B: 0, P: 0, N: 2},
+		{Op: "list-latest", B: 0, P: 0}}
+	// r2: broker 1's produce is uploading slowly; it shuts down (ReleaseAll before the in-flight
+	// requests are drained); broker 2 takes over and acknowledges offset 0; broker 1's upload lands
+	c05tWitnessR2 = []c05tStep{{Op: "produce", B: 0, P: 0, N: 1, Up: 3}, {Op: "shutdown", B: 0}, {Op: "produce", B: 1, P: 0, N: 2}, {Op: "list-latest", B: 1, P: 0}}
+	// r3: broker 2 opens the empty partition; broker 1 acknowledges offsets 0 and 1; broker 2 is
+	// asked for offset 0 again
+	c05tWitnessR3 = []c05tStep{{Op: "fetch", B: 1, P: 0, Off: 0}, {Op: "produce", B: 0, P: 0, N: 1}, {Op: "produce", B: 0, P: 0, N: 1}, {Op: "fetch", B: 1, P: 0, Off: 0}}
 	c05tWitnessD3 = []c05tStep{{Op: "produce", B: 0, P: 0, N: 1, Hold: 3}, {Op: "shutdown", B: 0}, {Op: "produce", B: 1, P: 0, N: 1},
 		{Op: "list-latest", B: 1, P: 0}}
 )
@@ -948,9 +1183,16 @@ func c05tWitness(t *testing.T, focus string) {
 		id    string
 		steps []c05tStep
 	}
-	wits := []wit{{c05tD1ID(focus), c05tWitnessD1}}
-	if focus == "C05" {
-		wits = append(wits, wit{c05tD2, c05tWitnessD2}, wit{c05tD3, c05tWitnessD3})
+	var wits []wit
+	switch focus {
+	case "C05":
+		wits = []wit{{c05tD1ID(focus), c05tWitnessD1}, {c05tD2, c05tWitnessD2}, {c05tD3, c05tWitnessD3}, {c05tR1ID(focus), c05tWitnessR1}, {c05tR2ID(focus), c05tWitnessR2}}
+	case "C02", "C06":
+		wits = []wit{{c05tD1ID(focus), c05tWitnessD1}, {c05tR1ID(focus), c05tWitnessR1}, {c05tR2ID(focus), c05tWitnessR2}}
+	case "C19":
+		wits = []wit{{c05tR2ID(focus), c05tWitnessR2}}
+	case "C04":
+		wits = []wit{{c05tR3, c05tWitnessR3}}
 	}
 	for _, wt := range wits {
 		st.Eval()
@@ -971,6 +1213,10 @@ func c05tWitness(t *testing.T, focus string) {
 			v = w.V05
 		case "C06":
 			v = append(append(v, w.VOverlap...), w.VRead...)
+		case "C04":
+			v = w.V04
+		case "C19":
+			v = w.V19
 		default:
 			v = append(append(append(v, w.VOverlap...), w.VGap...), w.VRead...)
 		}
@@ -987,3 +1233,5 @@ func c05tWitness(t *testing.T, focus string) {
 func TestVF_C05_TwoBrokersWitness(t *testing.T) { c05tWitness(t, "C05") }
 func TestVF_C06_TwoBrokersWitness(t *testing.T) { c05tWitness(t, "C06") }
 func TestVF_C02_TwoBrokersWitness(t *testing.T) { c05tWitness(t, "C02") }
+func TestVF_C04_TwoBrokersWitness(t *testing.T) { c05tWitness(t, "C04") }
+func TestVF_C19_TwoBrokersWitness(t *testing.T) { c05tWitness(t, "C19") }
